@@ -711,7 +711,73 @@ def check_gaps(run: Run, prog: Program) -> None:
                   "slots than it spans (and list/numpy containers disagree)", node=st, file=fg.file)
 
 
+def check_idx(run: Run, prog: Program) -> None:
+    """The slot number of a timestamp is measured from the same origin, in the same unit, as the grid
+    normalize_timestamp() snaps to: round((normalized T - _time_index_alignment) / _sampling_period)."""
+    from ..engine.normalize import inline_helpers
+    from ..engine.sympath import sym_paths
+    from ..engine.terms import Poly, TermEval
+
+    fn = prog.func(f"{BUF}:OrderedRingBuffer.to_internal_index")
+    nt = prog.func(f"{BUF}:OrderedRingBuffer.normalize_timestamp")
+    run.analysed(fn.qual)
+    T = fn.params[1]
+    ORIGIN, STEP = "self._time_index_alignment", "self._sampling_period"
+    te = TermEval()
+    want = Poly.atom(f"self.normalize_timestamp({T})") - Poly.atom(ORIGIN)
+
+    def slot_ok(e: ast.AST) -> bool:
+        # round(X.total_seconds() / STEP.total_seconds()) | round(X / STEP) | X // STEP   with X = T' - ORIGIN
+        if isinstance(e, ast.Call) and u(e.func) in ("round", "int") and len(e.args) == 1 and not e.keywords:
+            e = e.args[0]
+            if not (isinstance(e, ast.BinOp) and isinstance(e.op, ast.Div)):
+                return False
+        elif not (isinstance(e, ast.BinOp) and isinstance(e.op, ast.FloorDiv)):
+            return False
+        num, den = e.left, e.right
+        secs = lambda x: isinstance(x, ast.Call) and isinstance(x.func, ast.Attribute) \
+            and x.func.attr == "total_seconds" and not x.args  # noqa: E731
+        if secs(num) and secs(den):
+            num, den = num.func.value, den.func.value  # type: ignore[union-attr]
+        elif secs(num) or secs(den):
+            return False
+        return u(den) == STEP and te.ev(num) == want
+
+    n = 0
+    for p in sym_paths(inline_helpers(prog, fn)):
+        if p.exit != "return":
+            continue
+        n += 1
+        r = p.ret
+        ok = isinstance(r, ast.Call) and u(r.func) == "self.wrap" and len(r.args) == 1 and not r.keywords \
+            and slot_ok(r.args[0])
+        run.check(ok, "C09.IDX", fn.qual, "wrap(round((normalize(T) - _time_index_alignment) / _sampling_period))",
+                  "the storage slot of a timestamp is not computed from the normalised timestamp's distance to "
+                  "the alignment origin in sampling periods: normalize_timestamp() snaps to the "
+                  "_time_index_alignment grid, so with another origin (e.g. the UNIX epoch) neighbouring slots "
+                  f"can round onto the same cell and overwrite each other (found {u(r)[:120]})",
+                  node=fn.node, file=fn.file, path=p.describe())
+    if not n:
+        raise AnalysisError(f"{fn.qual}: no return path")
+    # the grid normalize_timestamp snaps to has that origin and step
+    dm = find_calls(nt.node, lambda c: u(c.func) == "divmod")
+    ok = len(dm) == 1 and len(dm[0].args) == 2 and u(dm[0].args[1]) == STEP \
+        and te.ev(dm[0].args[0]) == Poly.atom(nt.params[1]) - Poly.atom(ORIGIN)
+    run.check(ok, "C09.IDX", nt.qual, "divmod(T - _time_index_alignment, _sampling_period)",
+              "normalize_timestamp does not snap to the _time_index_alignment + k * _sampling_period grid that "
+              "the slot arithmetic assumes", node=nt.node, file=nt.file)
+    wr = prog.func(f"{BUF}:OrderedRingBuffer.wrap")
+    rets = [x for x in body_walk(wr.node) if isinstance(x, ast.Return)]
+    ok = len(rets) == 1 and isinstance(rets[0].value, ast.BinOp) and isinstance(rets[0].value.op, ast.Mod) \
+        and u(rets[0].value.left) == wr.params[1] and u(rets[0].value.right) in ("self.maxlen", "len(self._buffer)")
+    run.check(ok, "C09.IDX", wr.qual, "wrap(i) = i % maxlen",
+              "wrap() is not the slot number modulo the capacity", node=wr.node, file=wr.file)
+
+
 CONTROLS = [
+    ("slot number counted from the UNIX epoch", BUF,
+     "                (timestamp - self._time_index_alignment).total_seconds()\n                / self._sampling_period.total_seconds()",
+     "                timestamp.timestamp()\n                / self._sampling_period.total_seconds()", "C09.IDX"),
     ("missing sample records only its own slot", BUF,
      "                start_gap = min(newest + self._sampling_period, timestamp)\n", "                start_gap = timestamp\n", "C09.GAP"),
     ("fill clamp uses the capacity", BUF, "            end_index = min(end_index, len(data))\n",
@@ -746,6 +812,7 @@ def run_rules(run: Run, prog: Program) -> None:
     check_norm(run, prog)
     check_valid(run, prog)
     check_gaps(run, prog)
+    check_idx(run, prog)
 
 
 def check(run: Run, prog: Program, tier: str) -> str:
@@ -757,7 +824,10 @@ def check(run: Run, prog: Program, tier: str) -> str:
              "returning; MovingWindow.at guards every buffer read with a two-sided range check")
     run.rule("C09.GAP", "every gap recorded by update() starts no later than the first unwritten slot; a "
              "missing sample records a gap; _fill_gaps writes only inside [0, len(window)]")
+    run.rule("C09.IDX", "slot number = round((normalised T - alignment origin) / sampling period), the grid "
+             "normalize_timestamp snaps to; wrap() is modulo the capacity")
     run_rules(run, prog)
+    run.floor("C09.IDX", 3)
     run.floor("C09.NORM", 12)
     run.floor("C09.VALID", 10)
     run.floor("C09.GAP", 6)
